@@ -11,7 +11,9 @@
    [JNum m e] with e <> 0 is any other literal, of value m * 10^e (the harness
    sends those with e < 0).  encoding/json gives an int64 destination exactly
    the in-range integer-syntax literals and a float64 destination every literal
-   that does not round to an infinity.
+   that does not round to an infinity.  The int filter respells a float-syntax
+   literal whose nearest binary64 is an int64 integer; an integer-syntax
+   literal outside the int64 range is a fatal error.
 
    Objects are association lists in source order; unmarshalling into a Go map
    keeps the last value of a repeated key ([dedup], [get_last]).
@@ -269,7 +271,7 @@ Definition filter_builtin (k : kind) (v : json) : fres :=
     | KInt =>
         match v with
         | JNum m e =>
-            if (e =? 0)%Z && in_int64 m then unch v
+            if (e =? 0)%Z then (if in_int64 m then unch v else ffail v)
             else if f64_overflow m e then ffail v
             else match f64_round_int m e with
                  | Some i => FR (JNum i 0) true false true
